@@ -143,10 +143,15 @@ class AnnounceOracle:
         if not ins.running or ins.broken:
             return
         ins.running = False
-        if ins in self.await_draw:
+        never_ran = ins in self.await_draw
+        if never_ran:
             self.await_draw.remove(ins)  # cancelled before its task ran its first step: it never draws
         cyclic = bool(ins.t["CYCLIC_OFFER_DELAY"])
-        if ins.k >= 1 or ins.ever_offered:
+        if never_ran:
+            # the offer task did not even start: it offered nothing (a non-cyclic stop() announces the end regardless)
+            expect = "none" if cyclic else "either"
+            self.probe("stop_before_first_offer")
+        elif ins.k >= 1 or ins.ever_offered:
             expect = "one"
         elif ins.Q is not None and T < ins.Q[0] - RES:
             expect = "none" if cyclic else "either"
@@ -317,7 +322,11 @@ class AnnounceOracle:
             self.viol(rule, f"offer #{ins.k} of {ins.key} at {T:.6f}, latest allowed {last:.6f}", "late")
         # the offer was queued at the (actual) wake-up q with q <= T and q + timeout >= (due time of the collector that fired at T)
         qlo, qhi = max(lo, fire_start(self.busy, T) - self.tau), min(self.FL(hi), T)
-        if qlo > qhi:
+        if T < lo:
+            # fired up to one clock resolution early (the loop ran timers due within the resolution): the
+            # next delay counts from the actual wake-up
+            qlo = qhi = T
+        elif qlo > qhi:
             qlo = qhi = min(max(T - self.tau, lo), self.FL(hi))
         if ins.k == 0:
             ins.first_tx = T
